@@ -1,9 +1,136 @@
 import RustbusModel.Model.Proto
+import RustbusModel.Model.Dispatch
 namespace Driver.C19
-open Rustbus Rustbus.Proto
+open Rustbus Rustbus.Proto Rustbus.Dispatch
 
-/-- line protocol handler for the ops `c19.*` (tokens of one request line → one response line) -/
+/-! Line protocol for C19 (all strings as comma separated code points, `-` = empty, `!` = absent).
+
+* `c19.match <pattern> <path>` → `none` | `some <caps>`
+* `c19.table <p0|p1|..> <path> <d|idx>` → `legal` | `illegal` (is the implementation's choice one
+  that some iteration order of the table produces?)
+* `c19.lookup <p0|p1|..> <path>` → `default` | `h=<idx> <caps>` | `ambiguous`
+* `c19.run <routes> <events>` → `inv=.. wr=.. ret=..`
+  routes: `-` or `pat=hid|..` (calls of `add_handler`, in order);
+  event: `serial;sender;object;beh;send;adds`, beh ∈ n (Ok(None)) r (Ok(Some(custom reply))) e (Err),
+  send ∈ 1/0, adds: `-` or `pat=hid+pat=hid` (inserts into `env.new_dispatches`, in order).
+  `<caps>`: `-` or `name=value;..` sorted by name. -/
+
+def showStr (cs : List Char) : String :=
+  if cs.isEmpty then "-" else ",".intercalate (cs.map (fun c => toString c.toNat))
+
+def parseOptStr (s : String) : Option (Option (List Char)) :=
+  if s == "!" then some none else (parseCodepoints s).map some
+
+def ltChars : List Char → List Char → Bool
+  | [], [] => false
+  | [], _ :: _ => true
+  | _ :: _, [] => false
+  | a :: as, b :: bs =>
+    if a.toNat < b.toNat then true else if b.toNat < a.toNat then false else ltChars as bs
+
+def insertSorted (e : Seg × Seg) : Caps → Caps
+  | [] => [e]
+  | x :: xs => if ltChars e.1 x.1 then e :: x :: xs else x :: insertSorted e xs
+
+def showCaps (c : Caps) : String :=
+  if c.isEmpty then "-" else
+  ";".intercalate ((c.foldr insertSorted []).map (fun kv => showStr kv.1 ++ "=" ++ showStr kv.2))
+
+def parseRoute (s : String) : Option (List Char × Nat) :=
+  match s.splitOn "=" with
+  | [p, h] =>
+    match parseCodepoints p, h.toNat? with
+    | some p, some h => some (p, h)
+    | _, _ => none
+  | _ => none
+
+def parseRoutes (sep : String) (s : String) : Option (List (List Char × Nat)) :=
+  if s == "-" then some [] else (s.splitOn sep).mapM parseRoute
+
+/-- the patterns of a `c19.table` / `c19.lookup` request, inserted in order with handler = position -/
+def parseTable (s : String) : Option (Routes Nat) :=
+  match (s.splitOn "|").mapM parseCodepoints with
+  | some ps =>
+    some ((ps.zip (List.range ps.length)).foldl (fun rs ph => pmInsert rs ph.1 ph.2) [])
+  | none => none
+
+/-- the reply a scripted handler returns for `r`: recognisably not `make_response()` -/
+def customReply (serial : Nat) : Serial.Hdr :=
+  { serial := none, sender := none, destination := some "h.custom".toList,
+    replySerial := some (serial + 1000), errorName := some "h.Custom".toList, isError := true }
+
+def parseEvent (s : String) : Option (Event Nat) :=
+  match s.splitOn ";" with
+  | [serial, sender, object, beh, send, adds] =>
+    match serial.toNat?, parseOptStr sender, parseOptStr object, parseRoutes "+" adds with
+    | some ser, some snd, some obj, some adds =>
+      let res : Option Outcome :=
+        if beh == "n" then some .empty else if beh == "r" then some (.reply (customReply ser))
+        else if beh == "e" then some .err else none
+      match res with
+      | some res =>
+        some { msg := { hdr := { serial := some ser, sender := snd, destination := none,
+                                 replySerial := none, errorName := none, isError := false },
+                        object := obj },
+               behave := fun _ _ => { result := res, added := adds },
+               sendOk := send == "1" }
+      | none => none
+    | _, _, _, _ => none
+  | _ => none
+
+def showChosen : Chosen Nat → String
+  | .default => "d"
+  | .route h => toString h
+
+def optNat (o : Option Nat) : String := match o with | some n => toString n | none => "!"
+def optStr (o : Option (List Char)) : String := match o with | some s => showStr s | none => "!"
+
+def showHdr (h : Serial.Hdr) : String :=
+  optNat h.replySerial ++ ":" ++ optStr h.destination ++ ":" ++ (if h.isError then "1" else "0")
+
+def joinOr (sep : String) (xs : List String) : String := if xs.isEmpty then "-" else sep.intercalate xs
+
 def handle : List String → String
+  | ["c19.match", pat, path] =>
+    match parseCodepoints pat, parseCodepoints path with
+    | some p, some q =>
+      match patMatches (patternNew p) q with
+      | some caps => "some " ++ showCaps caps
+      | none => "none"
+    | _, _ => "bad-op"
+  | ["c19.table", pats, path, chosen] =>
+    match parseTable pats, parseCodepoints path with
+    | some rs, some q =>
+      let c : Option (Chosen Nat) := if chosen == "d" then some .default else chosen.toNat?.map .route
+      match c with
+      | some c => if legalChoice rs q c then "legal" else "illegal"
+      | none => "bad-op"
+    | _, _ => "bad-op"
+  | ["c19.lookup", pats, path] =>
+    match parseTable pats, parseCodepoints path with
+    | some rs, some q =>
+      match rs.filter (fun e => (patMatches e.1 q).isSome) with
+      | [] => "default"
+      | [_] =>
+        match getMatch rs q with
+        | some (caps, h) => s!"h={h} {showCaps caps}"
+        | none => "default"
+      | _ => "ambiguous"
+    | _, _ => "bad-op"
+  | ["c19.run", routes, events] =>
+    match parseRoutes "|" routes, (if events == "-" then some [] else (events.splitOn "|").mapM parseEvent) with
+    | some rts, some evs =>
+      let rs : Routes Nat := rts.foldl (fun rs ph => pmInsert rs ph.1 ph.2) []
+      let outs := (runAll rs evs).1
+      let inv := outs.flatMap (fun o => o.invoked.map (fun i => showChosen i.1 ++ ":" ++ showCaps i.2))
+      let wr := outs.flatMap (fun o => o.written.map showHdr)
+      let ret := (evs.zip outs).filterMap (fun eo =>
+        match eo.2.ended with
+        | .continues => none
+        | .handlerErr => some ("h@" ++ optNat eo.1.msg.hdr.serial)
+        | .sendErr => some ("s@" ++ optNat eo.1.msg.hdr.serial))
+      s!"inv={joinOr "|" inv} wr={joinOr "|" wr} ret={joinOr "," ret}"
+    | _, _ => "bad-op"
   | _ => "bad-op"
 
 end Driver.C19
